@@ -1,5 +1,5 @@
 """Per-property claim texts for MANIFEST.json (edited by hand, consumed by gen_manifest.py)."""
-FIX_COMMITS = ["da7f963 (C05 control frames)", "41cccf6 (C06 truncated UTF-8)", "36eeb72 (C08 one close frame)", "ccb92e4 (C08 close() releases transport)", "4a48db5 (C09 redirect limit)", "e29292b (C19 no_proxy)", "0ec712f (C20 cookie jar case)", "8c7ea56 (C10 Connection header)", "5f85bd6 (C14/C15 close frame routing)", "0ab4b1b (C14 error flag reset)", "bc38171 1ed0f6e 316cc91 5082854 (C17 internal exceptions / declared length)"]
+FIX_COMMITS = ["da7f963 (C05 control frames)", "41cccf6 (C06 truncated UTF-8)", "36eeb72 (C08 one close frame)", "ccb92e4 (C08 close() releases transport)", "4a48db5 (C09 redirect limit)", "e29292b (C19 no_proxy)", "0ec712f (C20 cookie jar case)", "8c7ea56 (C10 Connection header)", "5f85bd6 (C14/C15 close frame routing)", "0ab4b1b (C14 error flag reset)", "bc38171 1ed0f6e 316cc91 5082854 7d835cd bbb4ece (C17 internal exceptions / declared length / Location)", "a82c0f4 (C13 on_data type of fragmented messages)", "a2e8684 (C14 close() from on_open)", "93ab368 (C14 close() from another thread is not an error)"]
 NOT_APPLICABLE = {}
 CLAIMS = {
  "C10": {
@@ -19,7 +19,7 @@ CLAIMS = {
  },
  "C14": {
   "text": "teardown is idempotent with the flag read and set in one lock section; on_close is its last effect after stopping pings, clearing keep_running, closing and dropping the socket; whole run_forever with the built-in dispatcher over ending scenarios (refused connect, frame then loss, close frame, ping timeout, KeyboardInterrupt, app.close() from a callback): exactly one on_close, last; close frame reaches on_close as (be16(data), utf-8(data[2:])) by value flow and is not an error; result True iff on_error fired; error flag reset per run; ping thread signalled and joined; re-run refused while a socket exists.",
-  "note": "Not decided: close() from another thread preempting the loop at an arbitrary line (WebSocketApp.sock is written by close() and read by read()/_send_ping without a common lock -- noted, not reported), KeyboardInterrupt at arbitrary bytecodes, external dispatcher teardown.",
+  "note": "A second thread's close()/teardown is injected at every recorded effect of the run (single preemption, lock-aware); not decided: preemption between two bytecodes that have no effect in between, more than one preemption, KeyboardInterrupt at arbitrary bytecodes, external dispatcher teardown.",
   "technique": "typestate / effect-trace analysis by abstract interpretation over a scenario enumeration",
  },
  "C15": {
@@ -54,7 +54,7 @@ CLAIMS = {
  },
 
  "C01": {
-  "text": "Structural necessary conditions of a well-formed client frame, decided from the source: ABNF.format is interpreted abstractly over all payload lengths (interval partition) giving the complete length-encoding table; the two header-byte expressions are normalised to a bit layout and compared with RFC 6455 5.2; every public sender is interpreted down to send_frame and the frame it builds is checked (rsv=0, mask=1, requested fin/opcode, UTF-8 text); exactly one key draw of 4 bytes whose result is both the wire prefix and the XOR key, from os.urandom unless a key source is configured; send_frame returns len(format()) and send returns it; only send_frame reaches the transport; trace blocks are pure.",
+  "text": "Structural necessary conditions of a well-formed client frame, decided from the source: ABNF.format is interpreted abstractly over all payload lengths (interval partition) giving the complete length-encoding table; the two header-byte expressions are normalised to a bit layout and compared with RFC 6455 5.2; every public sender is interpreted down to send_frame and the frame it builds is checked (rsv=0, mask=1, requested fin/opcode, UTF-8 text); exactly one key draw of 4 bytes whose result is both the wire prefix and the XOR key, from os.urandom unless a key source is configured; send_frame returns len(format()) and send returns it; only send_frame reaches the transport (call-graph closure over private wrappers); send_frame and recv_data_frame behave identically with trace logging on and off (observable effects, results and state compared); the pure-Python masking routine is folded on constants for every length 0..23 and the encoding boundaries against cyclic XOR.",
   "note": "Not decided (value properties): the XOR arithmetic of _mask for arbitrary payloads beyond its constants agreeing, str.encode, what an independent decoder recovers. Trusted: struct.pack, os.urandom, Python semantics as implemented by the interpreter's transfer functions.",
   "technique": "abstract interpretation (intervals, string/bytes templates, bit-field normalisation) + who-may-call lints",
  },
@@ -74,7 +74,7 @@ CLAIMS = {
   "technique": "abstract interpretation of a finite state x input-class product with symbolic payloads",
  },
  "C06": {
-  "text": "The validator's automaton is extracted from the source (transition function by constant folding of _decode's table lookups for every reachable state and byte; start state, early exits and final acceptance from _validate_utf8) and proved language-equal to the Unicode Table 3-7 automaton by product construction (all byte strings); thorough tier also against a second independently written reference. Placement: validation is applied to the reassembled message (the validated term is the delivered term), never to fragments, unreachable with skip_utf8_validation, failures raise payload/protocol exceptions.",
+  "text": "The validator's automaton is extracted from the source (transition function by constant folding of _decode's table lookups for every reachable state and byte; start state, early exits and final acceptance from _validate_utf8; when there is no separate step function, states are the loop-head values of the validator's live, relevant variables and transitions come from folding the validator on access word + byte) and proved language-equal to the Unicode Table 3-7 automaton by product construction (all byte strings); thorough tier also against a second independently written reference. Placement: validation is applied to the reassembled message (the validated term is the delivered term), never to fragments, unreachable with skip_utf8_validation, failures raise payload/protocol exceptions.",
   "note": "Trusted: the reference automaton written in the checker (cross-checked against a second one in the thorough tier). The optional wsaccel validator is absent from this build and not analysed.",
   "technique": "DFA extraction from a literal table + product-automaton equivalence; abstract interpretation for call placement",
  },
@@ -95,7 +95,7 @@ CLAIMS = {
  },
  "C12": {
   "text": "Lock discipline read off effect traces (with.enter/with.exit events): every transport write of a frame is inside `with self.lock` and all partial writes of one frame share one critical section; the retry sends data[l:] with l the accepted count and send_frame returns only with an empty remainder; recv() holds the read lock around recv_data; all reads of a frame and the stage reset are in one frame-lock section; the three locks are distinct threading.Lock objects unless enable_multithread=False, defaults are True; lock-order graph acyclic; _socket.send performs one accepted write and returns its count.",
-  "note": "Thread interleavings are NOT explored: this decides the conditions under which the interleaving argument goes through, not atomicity under actual schedules. Receivers bypassing recv() (recv_data*) take no read lock by design.",
+  "note": "Beyond the lock discipline, one preemption is explored: at every recorded effect of a send_frame a second sender's complete send_frame is run (deferred while the lock object is held) and the transport must still see two intact frames (R-C12-8). General schedules (several preemptions, preemption between effect-free bytecodes) are not explored. Receivers bypassing recv() (recv_data*) take no read lock by design.",
   "technique": "lock-held-at-site and lock-order analysis over abstract-interpretation traces",
  },
 
